@@ -1241,6 +1241,10 @@ func SelectExpr(query *Query, current Map, expr *sqlparser.SelectExprs, opts ...
 		case *sqlparser.StarExpr:
 			{
 				for key, value := range current {
+					// a CTE that is in scope is not a key of the document
+					if _, ok := value.(CteEvaluation); ok {
+						continue
+					}
 					query.postProcessors = append(query.postProcessors, func() error {
 						delete(data, "<-")
 						return nil
